@@ -44,12 +44,16 @@ class SenseDecode(Unit):
         exc, text = out.value
         self.exc = None
         yield "C08", "str-returns-text", isinstance(text, str) or (isinstance(text, V.SOpaque) and text.tag.endswith("text"))
-        kaq = S.key_asc_ascq(list(a.sense))
+        kaq = S.present_key_asc_ascq(list(a.sense))
         if kaq is not None:
+            # every field whose byte the (possibly truncated) buffer contains is reported from its SPC position
             key, asc, ascq = kaq
-            yield "C08", "sense-key-at-SPC-position", _get(lambda: exc.data["sense_key"]) == key if _has(lambda: exc.data["sense_key"]) else False
-            yield "C08", "asc-at-SPC-position", _get(lambda: exc.asc) == asc if _has(lambda: exc.asc) else False
-            yield "C08", "ascq-at-SPC-position", _get(lambda: exc.ascq) == ascq if _has(lambda: exc.ascq) else False
+            if key is not None:
+                yield "C08", "sense-key-at-SPC-position", _get(lambda: exc.data["sense_key"]) == key if _has(lambda: exc.data["sense_key"]) else False
+            if asc is not None:
+                yield "C08", "asc-at-SPC-position", _get(lambda: exc.asc) == asc if _has(lambda: exc.asc) else False
+            if ascq is not None:
+                yield "C08", "ascq-at-SPC-position", _get(lambda: exc.ascq) == ascq if _has(lambda: exc.ascq) else False
 
 
 
